@@ -132,9 +132,10 @@ func dumpRoutes() (string, error) {
 
 type c09Cred struct{ hdr, class string } // hdr: "-" absent, "=<template>" present
 
+// $R (class "revoked") is a token that was issued, used successfully and then revoked, see open()
 var c09Creds = []c09Cred{
 	{"-", "none"}, {"=", "empty"},
-	{"=Bearer $A", "admin"}, {"=Bearer $U", "user"}, {"=Bearer $R", "revoked"}, // $R: issued, used, then revoked {"=Bearer $X", "unknown"},
+	{"=Bearer $A", "admin"}, {"=Bearer $U", "user"}, {"=Bearer $R", "revoked"}, {"=Bearer $X", "unknown"},
 	{"=Bearer $A$U", "unknown"}, {"=Bearer $U.", "unknown"},
 	{"=Bearer", "no-token"}, {"=Bearer ", "no-token"}, {"= ", "no-token"},
 	{"=Bearer  $U", "extra-parts"}, {"=Bearer $U ", "extra-parts"}, {"= Bearer $U", "extra-parts"},
